@@ -64,6 +64,24 @@ def run(tier):
             trace.append({"op": "digest", "backend": "openssl" if backend == "plain" else "bundled", "t": t, "msg": "%d+%d" % (off, n), "hex": e["digest"], "std": std(t, data),
                           "dsize": e["dsize"], "nseg": e["nseg"]})
             ck.case((backend, t, n, tuple(cuts[:6]), len(cuts)))
+    # ---- messages whose length in bits does not fit 32 bits (512 MiB and more): zeros, fed in 16 MiB updates; quick: SHA-256 and
+    # SHA-512/128, thorough: also SHA-512 and a length above 2^32 bits by more than a block
+    import hashlib
+    def zstd_digest(t, n):
+        hh = hashlib.new({0: "sha1", 1: "sha256", 2: "sha512", 3: "sha512"}[t]); z = bytes(1 << 22); left = n
+        while left:
+            k = min(left, len(z)); hh.update(z[:k]); left -= k
+        d = hh.hexdigest(); return d[:32] if t == 3 else d
+    bigs = [(1, 2**29 + 17), (3, 2**29 + 17)] + ([(2, 2**29 + 17), (0, 2**29 + 17), (1, 2**29 + 2**20 + 55)] if tier == "thorough" else [])
+    bscript = "case big 900\n" + "".join("hash %d zero:%d %s\n" % (t, n, ",".join(str(k << 24) for k in range(1, (n >> 24) + 1))) for t, n in bigs) + "end\n"
+    for backend in ("plain", "bundled"):
+        bev = [e for e in common.run_driver(bscript, backend, timeout=1500) if e["op"] in ("hash", "Crash", "Hang")]
+        for (t, n), e in zip(bigs, bev + [{"op": "Crash"}] * len(bigs)):
+            if e["op"] != "hash" or e.get("ret") != 1:
+                trace.append({"op": "Crash", "backend": backend, "why": "no digest", "case": [t, n]}); continue
+            trace.append({"op": "digest", "backend": "openssl" if backend == "plain" else "bundled", "t": t, "msg": "zeros:%d" % n, "hex": e["digest"], "std": zstd_digest(t, n),
+                          "dsize": e["dsize"], "nseg": e["nseg"]})
+            ck.case((backend, t, n, "zeros"))
     ck.sample(trace[0]); ck.sample(trace[len(trace) // 2])
     # ---- cross-build files
     ncross = 0
